@@ -16,7 +16,8 @@ import (
 )
 
 // finding is one "finding:" line of /verif/KNOWN_FINDINGS.txt:
-//   finding: property=C09 rule=C09.abort match=variant=icmp4,cause=too-small -- what fails
+//
+//	finding: property=C09 rule=C09.abort match=variant=icmp4,cause=too-small -- what fails
 type finding struct {
 	prop  string
 	rule  string
